@@ -10,7 +10,7 @@ import tempfile
 import zlib
 
 from harness.common import Ck, coq_bytes, coq_list, coq_str, parse_coq_N_list
-from translate import c13_api, c13_archname, c13_nested, c13_nullstr, c13_vpk
+from translate import c13_api, c13_archname, c13_names, c13_nested, c13_nullstr, c13_vpk
 
 MANIFEST = dict(
     technique='Rocq proof: whole-history refinement of the executable VPK state machine to a plain map (invariant + induction over the '
@@ -64,7 +64,7 @@ MANIFEST = dict(
 )
 
 IMPORTS = ['Coq.Lists.List', 'Coq.NArith.NArith', 'SV.Fmt.VpkDir', 'SV.SM.Vpk', 'SV.Fmt.VpkArchName', 'SV.SM.VpkCorr', 'SV.Gen.VpkPlace_gen',
-           'SV.Gen.VpkArchName_gen', 'SV.Fmt.VpkNullStr', 'SV.Gen.VpkNullStr_gen', 'SV.SM.VpkNested', 'SV.Gen.VpkNested_gen', 'SV.SM.VpkApi', 'SV.Gen.VpkApi_gen', 'SV.SM.VpkNestedMap', 'SV.SM.VpkPlace']
+           'SV.Gen.VpkArchName_gen', 'SV.Fmt.VpkNullStr', 'SV.Gen.VpkNullStr_gen', 'SV.SM.VpkNested', 'SV.Gen.VpkNested_gen', 'SV.SM.VpkApi', 'SV.Gen.VpkApi_gen', 'SV.SM.VpkNestedMap', 'SV.SM.VpkPlace', 'SV.Fmt.VpkNameJoin', 'SV.Gen.VpkNames_gen']
 PRE = 'Import ListNotations. Open Scope N_scope.\n'
 
 R_OK, R_RO, R_EXISTS, R_MISSING, R_BADNAME, R_BADIDX, R_BADDIR, R_EXC = 0, 1, 2, 3, 4, 5, 6, 9
@@ -1100,15 +1100,16 @@ def corr_names(ck: Ck) -> None:
     for lo in range(0, len(lits), 500):
         part = lits[lo:lo + 500]
         vals = ck.coq_eval(IMPORTS + ['SV.Fmt.VpkName', 'SV.Fmt.VpkNameSplit'], [
-            'bad_idx (fun c : nameform * key * bytes => andb (key_eqb (file_parts_k posix_normpath g_ext_split (fst (fst c))) (snd (fst c))) '
-            f'(bytes_eqb (join_parts (snd (fst c))) (snd c))) 0 {coq_list(part)}'], name='vpknames', preamble=PRE)
+            'bad_idx (fun c : nameform * key * bytes => andb (key_eqb (file_parts_g posix_normpath g_ext_split g_parts (fst (fst c))) (snd (fst c))) '
+            f'(match join_k g_join_table (snd (fst c)) with Some j => bytes_eqb j (snd c) | None => false end)) 0 {coq_list(part)}'], name='vpknames', preamble=PRE)
         if vals is None:
             ck.obligation('correspondence:names', False, 'model could not be evaluated')
             ck.tie_broken.append('correspondence VPK names: model evaluation failed')
             return
         bad += [lo + i for i in parse_coq_N_list(vals[0])]
     ck.obligation('correspondence:names', not bad,
-                  f'{len(lits)} name forms, Fmt/VpkNameSplit.v file_parts_k over the translated split statement / join_parts vs _get_file_parts/_join_file_parts: {len(bad)} disagreements')
+                  f'{len(lits)} name forms, Fmt/VpkNameJoin.v file_parts_g over the translated description and split statement of _get_file_parts / join_k over the '
+                  f'translated table of _join_file_parts vs the two functions: {len(bad)} disagreements')
     if bad:
         ck.tie_broken.append('correspondence VPK names (Fmt/VpkName.v vs _get_file_parts)')
         ck.extra['names_disagreement'] = {'form': repr(forms[bad[0]]), 'impl': repr(_get_file_parts(forms[bad[0]]))}
@@ -1422,7 +1423,8 @@ def run(ck: Ck) -> None:
     ok_t = ck.translate('VpkNullStr_gen', c13_nullstr.translate) and ok_t
     ok_t = ck.translate('VpkNested_gen', c13_nested.translate) and ok_t
     ok_t = ck.translate('VpkApi_gen', c13_api.translate) and ok_t
-    built = ok_t and ck.build(['Props/C13.vo', 'SM/VpkCorr.vo', 'Gen/VpkPlace_gen.vo', 'Gen/VpkArchName_gen.vo', 'Gen/VpkNullStr_gen.vo', 'Gen/VpkNested_gen.vo', 'Gen/VpkApi_gen.vo'])
+    ok_t = ck.translate('VpkNames_gen', c13_names.translate) and ok_t
+    built = ok_t and ck.build(['Props/C13.vo', 'SM/VpkCorr.vo', 'Gen/VpkPlace_gen.vo', 'Gen/VpkArchName_gen.vo', 'Gen/VpkNullStr_gen.vo', 'Gen/VpkNested_gen.vo', 'Gen/VpkApi_gen.vo', 'Gen/VpkNames_gen.vo'])
     if built:
         ck.theorems('Props/C13.v')
         ck.instance_obligations(IMPORTS + ['SV.Fmt.VpkNameSplit', 'SV.Props.C13'], {
@@ -1444,6 +1446,11 @@ def run(ck: Ck) -> None:
             'unrepresentable_names_rejected': 'g_chk_name',
             'instance_satisfies_theorem_premises': 'andb (vcfg_ok (g_vcfg true (Some 1024%N))) (vcfg_ok (g_vcfg false None))',
             'ext_split_is_at_the_last_dot': 'split_kind_ok g_ext_split',
+            # the two name helpers executed symbolically (Gen/VpkNames_gen.v): premises of c13_join_table_is_model /
+            # c13_get_parts_description_is_model / c13_generated_listed_name_resolves
+            'join_file_parts_puts_the_separators_where_the_parts_are': 'join_table_ok g_join_table',
+            'get_file_parts_takes_the_parts_from_the_three_forms': 'gparts_ok g_parts',
+            'fileinfo_filename_is_join_file_parts': 'g_fileinfo_filename_is_join',
             # archive file names (Gen/VpkArchName_gen.v): premises of c13_dir_prefix_exact / c13_arch_names_coincide / c13_arch_filename_*
             'filename_setter_removes_the_tested_suffix': 'setter_ok g_ncfg',
             'write_site_prefix_is_the_dir_prefix': 'site_ok g_ncfg (n_writer g_ncfg)',
